@@ -201,6 +201,7 @@ impl ResultNode {
             byte_end: self.end_bytes,
             char_offset: self.begin() as u16,
             char_end: self.end() as u16,
+            total_cost: self.total_cost,
         }
     }
 }
@@ -232,6 +233,8 @@ pub struct NodeSplitIterator<'a> {
     byte_offset: u16,
     char_end: u16,
     byte_end: u16,
+    /// path cost up to the end of the node which is split: its units report it as their own
+    total_cost: i32,
 }
 
 impl Iterator for NodeSplitIterator<'_> {
@@ -271,7 +274,7 @@ impl Iterator for NodeSplitIterator<'_> {
 
         let inner = Node::new(char_start, char_end, u16::MAX, u16::MAX, i16::MAX, word_id);
 
-        let node = ResultNode::new(inner, i32::MAX, byte_start, byte_end, word_info);
+        let node = ResultNode::new(inner, self.total_cost, byte_start, byte_end, word_info);
 
         self.index += 1;
         Some(node)
